@@ -159,6 +159,8 @@ class Summ:
                 return self.lookup(node.value.id, None if self.dicts[node.value.id][0] == "list" else 0, loops, facts)
         if isinstance(node, ast.Call) and src(node.func) == "next" and node.args and src(node.args[0]) in self.counters:
             return self.fresh(node, loops)
+        if isinstance(node, ast.Constant) and isinstance(node.value, int) and not isinstance(node.value, bool):
+            return ("sym", ("const", node.value))      # one fixed letter shared by every member it is given to
         raise Incomplete("index expression " + src(node)[:40])
 
     def list_ref(self, node) -> Optional[List[Seg]]:
